@@ -64,13 +64,18 @@ Acceptable(o, allow) ==
 
 \* ------------------------------------------------------------------ layer 1: the code
 Devs == {"UnescapedDotInPattern", "WildcardIgnoresScheme", "OptionalSubdomain"}
+\* the deviations the CURRENT code has: the first two were repaired in /repo (fix commit
+\* "match CORS wildcard origins literally and only for the same scheme"); they stay in the
+\* model so that their return is named when it is detected
+CodeDevs == {"OptionalSubdomain"}
 
 \* url.Host after the default port has been joined
 HostPort(x) == IF EffPort(x) = 0 THEN x.host ELSE x.host \o <<":">> \o NatChars(EffPort(x))
 
-\* pattern tokens: one-character strings are literals; "ANY" = '.', "STAR" = '.*', "OPT" = '(..*\.)?'
-\* (the code first turns "*." into "(.*\.)?" and then every "*" -- including the one it has just
-\*  written -- into ".*", so the optional group is "(..*\.)?": at least one character and a dot)
+\* pattern tokens: one-character strings are literals; "ANY" = '.', "STAR" = '.*', "OPT" = '(.*\.)?'
+\* (the code quotes the host, then turns the quoted "*." into "(.*\.)?" and every other quoted
+\*  "*" into ".*"; before the fix in /repo the second replacement also rewrote the "*" inside
+\*  the group, which made the group "(..*\.)?")
 RECURSIVE Tok(_, _)
 Tok(h, D) ==
     IF h = <<>> THEN <<>>
@@ -84,7 +89,7 @@ RECURSIVE RMatch(_, _)
 RMatch(p, s) ==
     IF p = <<>> THEN s = <<>>
     ELSE CASE Head(p) = "STAR" -> RMatch(Tail(p), s) \/ (s # <<>> /\ RMatch(p, Tail(s)))
-           [] Head(p) = "OPT"  -> RMatch(Tail(p), s) \/ RMatch(<<"ANY", "STAR", ".">> \o Tail(p), s)
+           [] Head(p) = "OPT"  -> RMatch(Tail(p), s) \/ RMatch(<<"STAR", ".">> \o Tail(p), s)
            [] Head(p) = "ANY"  -> s # <<>> /\ RMatch(Tail(p), Tail(s))
            [] OTHER            -> s # <<>> /\ Head(s) = Head(p) /\ RMatch(Tail(p), Tail(s))
 
